@@ -16,8 +16,9 @@ TECHNIQUE = "exhaustive enumeration of dataset classes x all dictionary pairs ag
 RULE = (
     "member kinds {Option('A'), Option('S.X'), Option('B', 2), dataset reading C, Option('D', 1) >> f, constant, "
     
-    "Option('S.W') (second key of the same section), Option('S.Z.K', 0) (deeper key of that section), member "
-    "inherited from a plain base class}; all classes with 1..3 distinct kinds (129); plus a dataset class derived "
+    "Option('S.W') (second key of the same section), Option('S.Z.K', 0) (deeper key of that section), brace-bearing string constant, "
+    "mutable list constant, whole-section Option (re-ordered section), member inherited from a plain base class}; "
+    "all classes with 1..3 distinct kinds; plus a dataset class derived "
     "from another dataset class in three usage orders; dictionaries = product of the "
     "keys the members mention (+ one junk key, + sibling S.Y); for every dictionary: attributes, validate/keys/"
     "explain = union over members, repr; for every ORDERED PAIR: a == b iff restrict(o_a, keys) == restrict(o_b, "
